@@ -278,7 +278,8 @@ def match_finding(fail: dict, findings: list[dict]):
     property is still reported.
     """
     for fd in findings:
-        if fd.get("property") != fail["property"]:
+        fp = fd.get("property")
+        if fail["property"] not in (fp if isinstance(fp, list) else [fp]):
             continue
         ok = True
         if "component_contains" in fd:
@@ -300,7 +301,11 @@ def match_finding(fail: dict, findings: list[dict]):
                 continue
             pat = fd[k]
             val = fail[k]
-            if pat.endswith("*"):
+            if pat.startswith("*") and len(pat) > 1:
+                if not val.endswith(pat[1:]):
+                    ok = False
+                    break
+            elif pat.endswith("*"):
                 if not val.startswith(pat[:-1]):
                     ok = False
                     break
